@@ -5,6 +5,9 @@ import NetqasmVerif.Driver.Bell
 import NetqasmVerif.Driver.QubitMgr
 import NetqasmVerif.Driver.Angle
 import NetqasmVerif.Driver.Hub
+import NetqasmVerif.Driver.Reject
+import NetqasmVerif.Driver.Msg
+import NetqasmVerif.Driver.Text
 open Lean NQ.Drv
 
 def handlers : List (String → Json → Option Json) := [
@@ -14,7 +17,10 @@ def handlers : List (String → Json → Option Json) := [
   handleBell,
   handleQubitMgr,
   handleAngle,
-  handleHub]
+  handleHub,
+  handleReject,
+  handleMsg,
+  handleText]
 
 def dispatch (j : Json) : Json :=
   match (jField? j "op").bind jStr? with
